@@ -51,23 +51,49 @@ class Agg:
             if m["first"] is None:
                 m["first"] = f["first"]
 
-    def signatures(self, consequential=()):
+    def signatures(self, consequential=(), known=(), depends=None):
         """consequential: [(downstream op, upstream op)] - a downstream failure with a symptom the
         upstream operation shows as well is the same finding (the downstream operation returns the
         upstream result) and is not listed twice."""
-        out = []
-        for (op, symptom), f in sorted(self.fails.items()):
-            if any(op == d and (u, symptom) in self.fails for d, u in consequential):
-                continue
+        def sig_of(op, symptom, f):
             restr = ""
             for k in sorted(f["attrs"]):
                 if f["attrs"][k] != self.tried.get(op, {}).get(k, f["attrs"][k]):
                     restr += f"[{k}={'|'.join(sorted(f['attrs'][k]))}]"
-            out.append((f"{op}:{symptom}{restr}", f["n"]) + tuple(f["first"]))
+            return f"{op}:{symptom}{restr}"
+
+        def split(op):
+            k = op.find(":history[")
+            return (op, "") if k < 0 else (op[:k], op[k:])
+
+        def upstream_broken(op):
+            """`depends`: operation -> operations it is implemented on.  A failure of an operation whose upstream
+            operation fails too (same history suffix, finding not recorded as known) is a consequence, not a finding."""
+            base, sfx = split(op)
+            for up in (depends or {}).get(base, ()):
+                for (o2, sy2), f2 in self.fails.items():
+                    if o2 == up + sfx and sig_of(o2, sy2, f2) not in known:
+                        return True
+            return False
+
+        out = []
+        for (op, symptom), f in sorted(self.fails.items()):
+            if any(op == d and (u, symptom) in self.fails for d, u in consequential):
+                continue
+            if upstream_broken(op):
+                continue
+            # `<op>:history[<edit>]` failing with a symptom that `<op>` already shows on FRESH objects is that same finding
+            # (unless the fresh-object finding is a recorded known one: then the history finding must stay visible)
+            if ":history[" in op:
+                base = op[: op.index(":history[")]
+                bf = self.fails.get((base, symptom))
+                if bf is not None and sig_of(base, symptom, bf) not in known:
+                    continue
+            out.append((sig_of(op, symptom, f), f["n"]) + tuple(f["first"]))
         return out
 
-    def emit(self, ctx, consequential=(), replay_of=None):
-        for sig, n, what, case, repro in self.signatures(consequential):
+    def emit(self, ctx, consequential=(), replay_of=None, known=(), depends=None):
+        for sig, n, what, case, repro in self.signatures(consequential, known, depends):
             case = dict(case)
             if replay_of is not None and replay_of.get("sig"):
                 # one re-executed case cannot see the class restrictions: same (op, symptom) => same finding
